@@ -12,6 +12,7 @@ type Locker = sync.Locker
 // Mutex is the controlled replacement of sync.Mutex.
 type Mutex struct {
 	locked bool
+	vc     vclock
 }
 
 func (m *Mutex) Lock() {
@@ -29,6 +30,7 @@ func (m *Mutex) Lock() {
 	t.op = op{kind: opLock, obj: m, site: CallerSite(1)}
 	s.block(t)
 	m.locked = true
+	s.hbAcquire(&m.vc)
 }
 
 func (m *Mutex) TryLock() bool {
@@ -41,6 +43,7 @@ func (m *Mutex) TryLock() bool {
 		return false
 	}
 	m.locked = true
+	s.hbAcquire(&m.vc)
 	return true
 }
 
@@ -53,10 +56,12 @@ func (m *Mutex) Unlock() {
 		panic("sync: unlock of unlocked mutex")
 	}
 	m.locked = false
+	s.hbRelease(&m.vc)
 }
 
 // RWMutex follows Go's writer-preferring semantics.
 type RWMutex struct {
+	wvc, rvc vclock // clocks released by writers / by readers
 	wm      bool // writer mutex held (writers are serialised)
 	pending bool // a writer announced itself or holds the lock
 	r       int  // readers holding
@@ -83,6 +88,8 @@ func (rw *RWMutex) Lock() {
 		t.op = op{kind: opWLock, obj: rw, site: site}
 		s.block(t)
 	}
+	s.hbAcquire(&rw.wvc)
+	s.hbAcquire(&rw.rvc)
 }
 
 func (rw *RWMutex) TryLock() bool {
@@ -101,6 +108,7 @@ func (rw *RWMutex) Unlock() {
 	if !rw.wm {
 		panic("sync: Unlock of unlocked RWMutex")
 	}
+	s.hbRelease(&rw.wvc)
 	rw.pending = false
 	// readers blocked at this moment become holders now (Go releases them before the next writer)
 	if s != nil {
@@ -131,6 +139,7 @@ func (rw *RWMutex) RLock() {
 	if t.op.kind == opRLock { // not granted by a writer's Unlock
 		rw.r++
 	}
+	s.hbAcquire(&rw.wvc)
 }
 
 func (rw *RWMutex) TryRLock() bool {
@@ -150,6 +159,7 @@ func (rw *RWMutex) RUnlock() {
 		panic("sync: RUnlock of unlocked RWMutex")
 	}
 	rw.r--
+	s.hbRelease(&rw.rvc)
 }
 
 type rlocker RWMutex
@@ -163,6 +173,7 @@ func (rw *RWMutex) RLocker() Locker { return (*rlocker)(rw) }
 type Cond struct {
 	L       Locker
 	waiters []*thread
+	vc      vclock
 }
 
 func NewCond(l Locker) *Cond { return &Cond{L: l} }
@@ -183,6 +194,7 @@ func (c *Cond) Wait() {
 	c.L.Unlock()
 	t.op = op{kind: opCondWait, obj: c, site: site}
 	s.block(t)
+	s.hbAcquire(&c.vc)
 	c.L.Lock()
 }
 
@@ -195,6 +207,7 @@ func (c *Cond) Signal() {
 		t.op = op{kind: opResume, site: CallerSite(1)}
 		s.block(t)
 	}
+	s.hbRelease(&c.vc)
 	if len(c.waiters) > 0 {
 		w := c.waiters[0]
 		c.waiters = c.waiters[1:]
@@ -211,6 +224,7 @@ func (c *Cond) Broadcast() {
 		t.op = op{kind: opResume, site: CallerSite(1)}
 		s.block(t)
 	}
+	s.hbRelease(&c.vc)
 	for _, w := range c.waiters {
 		w.op.signaled = true
 	}
@@ -219,7 +233,8 @@ func (c *Cond) Broadcast() {
 
 // WaitGroup is the controlled replacement of sync.WaitGroup.
 type WaitGroup struct {
-	n int
+	n  int
+	vc vclock
 }
 
 func (w *WaitGroup) Add(d int) {
@@ -230,6 +245,9 @@ func (w *WaitGroup) Add(d int) {
 	w.n += d
 	if w.n < 0 {
 		panic("sync: negative WaitGroup counter")
+	}
+	if d < 0 {
+		s.hbRelease(&w.vc)
 	}
 }
 
@@ -248,6 +266,7 @@ func (w *WaitGroup) Wait() {
 	}
 	t.op = op{kind: opWGWait, obj: w, site: CallerSite(1)}
 	s.block(t)
+	s.hbAcquire(&w.vc)
 }
 
 // Once is the controlled replacement of sync.Once.
